@@ -5,7 +5,7 @@ TX (thread-schedule explorer) on SQLite. A reading session re-observes state by 
 collection, collection.load(), prefetch, a lazy attribute, navigation from the other side of a relationship,
 get_for_update) and is interleaved at every position with one (thorough tier also: two) committing
 writers: attribute update, delete, link / unlink / move of a to-one side, insert into a loaded collection,
-many-to-many link / unlink. Oracle on every execution: for every non-volatile (object, attribute) and every
+many-to-many link / unlink, first member of an empty collection, re-link of a one-to-one pair. Oracle on every execution: for every non-volatile (object, attribute) and every
 fully loaded collection that the reader observed more than once, all observations are equal - unless the
 session ended with an exception (UnrepeatableReadError is the loud failure the property allows; any other
 Pony exception ends the session too; a non-Pony exception is reported). Only reads OF the attribute or
@@ -23,6 +23,22 @@ Two generated reader families on top of the hand-written readers:
  * write-between: the reader observes attribute A, modifies another attribute B of the same object and calls
    commit() / flush() inside the db_session that stays open (identity map and read marks survive), a writer
    commits a new A, the reader fetches the row again (eight routes) and observes A again.
+ * observed-loaded ('E:' readers): group 3 has NO items and NO tags. Its collection is made fully loaded (len / load() /
+   prefetch / bool / iteration), one question (iteration, copy(), len, count, is_empty, bool, in, ==) is answered
+   (0 / True / [] is an answer like any other), a writer commits the FIRST member (new item row, existing item moved in,
+   many-to-many link), the reader fetches nothing at all ('none') or the item rows / the other side by one of 5 (items) /
+   3 (tags) routes and puts the same question again. 5 loaders x 8 questions x (1 + 5 | 1 + 3) refetches; the quick tier
+   takes 'none' for every loader x question plus one rotating refetch at preemption bound 1; the thorough tier takes all
+   of them and, with refetch 'none', the same product on the NON-empty collections of group 1 and their five / two writers.
+ * one2one ('O:' readers, a second world): one-to-one attributes whose OWN side holds a column - symmetric S.spouse
+   (4 rows, S1 <-> S4) and M.wife / F.husband with column= on both sides (2 + 2 rows, M1 <-> F1). The reader observes
+   x.attr for an x that is linked and an x that is single, a writer commits a re-link (marry two singles, take a partner
+   away, divorce; made through either side; two writers store ONE side only with raw SQL like a foreign program), the
+   reader fetches another row y of the partner entity (every y; by primary key, one-row query, get_for_update,
+   y's own side of the relationship, full-table query, filtered query; also with y loaded BEFORE the first observation
+   and fetched again by q_all / q_one / load()) and observes x.attr again. 96 readers x 3 (S) / 7 (M, F) writers,
+   preemption bound 1 (quick), all interleavings (thorough). The new value arrives through the reverse side of the
+   relationship (db_update_reverse), not through x's own row.
 """
 import itertools
 from vf import core
@@ -64,9 +80,40 @@ def populate(E):
     D(id=1, item=I[1]); D(id=2)
     t1, t2 = T(id=1, label='t1'), T(id=2, label='t2')
     g1.tags.add(t1); g2.tags.add(t2)
+    G(id=3, name='g3')                                     # no items, no tags: collections that are observed EMPTY
 
 def make_world():
     return tx.World('reads', define, populate)
+
+# second world: one-to-one relationships whose READ side holds a column (symmetric; column= on both sides)
+def define2(db, orm):
+    class S(db.Entity):
+        id = orm.PrimaryKey(int)
+        name = orm.Required(str)
+        spouse = orm.Optional('S', reverse='spouse')       # symmetric one-to-one: every row has the column
+    class M(db.Entity):
+        id = orm.PrimaryKey(int)
+        name = orm.Required(str)
+        wife = orm.Optional('F', reverse='husband', column='wife')
+    class F(db.Entity):
+        id = orm.PrimaryKey(int)
+        name = orm.Required(str)
+        husband = orm.Optional(M, reverse='wife', column='husband')
+
+def populate2(E):
+    S, M, F = E['S'], E['M'], E['F']
+    for i in (1, 2, 3, 4): S(id=i, name='s%d' % i)
+    for i in (1, 2): M(id=i, name='m%d' % i); F(id=i, name='f%d' % i)
+    S._database_.flush()                                   # rows first, links afterwards (cyclic chains cannot be inserted)
+    S[1].spouse = S[4]
+    M[1].wife = F[1]
+
+def make_world2():
+    return tx.World('one2one', define2, populate2)
+
+WORLD2_ENTITIES = ('S', 'M', 'F')
+def world_factory_for(progs):
+    return make_world2 if any(len(op) > 1 and op[1] in WORLD2_ENTITIES for p in progs for op in p['ops']) else make_world
 
 # volatile-only data: a committed change confined to these cannot justify an UnrepeatableReadError
 VOLATILE_COLUMNS = {('I', 'vol')}
@@ -122,7 +169,12 @@ WRITERS = [
     P('swap_detail', ('link1', 1, None), ('link1', 2, 1)),
     P('move_V1', ('link', 'V', 1, 'g', 2)),
     P('move_V2_in', ('link', 'V', 2, 'g', 1)),
+    # writers that put a first member into the EMPTY collections of group 3 (only used by the 'observed-loaded' family)
+    P('new_I5_G3', ('new', 'I', 5, 3)),
+    P('move_I3_G3', ('link', 'I', 3, 'g', 3)),
+    P('tag_add_G3', ('m2m', 'add', 3, 1)),
 ]
+G3_WRITERS = ('new_I5_G3', 'move_I3_G3', 'tag_add_G3')
 # ---- family 'loaded-first': the collection is made fully loaded BEFORE its content is first observed, the item's
 # to-one attribute is never read directly, a writer moves / unlinks / deletes an item (or adds one), the reader
 # fetches the item rows again with a query text it has not used before and observes the collection again.
@@ -186,12 +238,81 @@ def wb_writers(name, quick):
     if a == 'item': return ['swap_detail']
     return ['move_I1', 'unlink_I1'] if quick else ['move_I1', 'unlink_I1', 'del_I1', 'new_I4']
 
+# ---- family 'observed-loaded' (names 'E:...'): a collection of group <gid> is made fully loaded (five ways, iteration
+# included), ONE question is put to it (iteration, copy, len, count, is_empty, bool, in, ==), a writer commits a new
+# member / moves an existing row in (or out), the reader optionally fetches the item rows (or the other side) and
+# puts the same question again. Group 3 is EMPTY at the start (items and tags): an answer 0 / True / [] is an answer
+# like any other. Refetch 'none': nothing at all happens in the reader between the two questions.
+def gen_observed_loaded(gid, attr, in_ids, eq_ids, refetches):
+    c = ('G', gid, attr)
+    loaders = dict(len=('len',) + c, cload=('cload',) + c, prefetch=('prefetch', 'G', attr), bool=('bool',) + c, items=('items',) + c)
+    observers = dict(items=[('items',) + c], copy=[('copy',) + c], len=[('len',) + c], count=[('count',) + c], empty=[('empty',) + c],
+                     bool=[('bool',) + c], isin=[('in',) + c + (i,) for i in in_ids], eq=[('eq',) + c + (tuple(eq_ids),)])
+    out, quick = [], []
+    for li, (ln, lop) in enumerate(sorted(loaders.items())):
+        for oi, (on, oops) in enumerate(sorted(observers.items())):
+            if ln == on: continue
+            for ri, (rn, rop) in enumerate(refetches):
+                p_ = P('E:G%d.%s:%s+%s|%s' % (gid, attr, ln, on, rn), lop, *(oops + ([rop] if rop else []) + oops))
+                out.append(p_)
+                if rn == 'none' or (len(refetches) > 1 and ri == 1 + (li + oi) % (len(refetches) - 1)): quick.append(p_['name'])
+    return out, quick
+EMPTY_ITEMS, EMPTY_ITEMS_QUICK = gen_observed_loaded(3, 'items', (3, 5), (), [('none', None), ('q_all', ('q_all', 'I')), ('q_gt', ('q_gt', 'I')),
+                                                     ('q_one', ('q_one', 'I', 3)), ('nav', ('attr', 'I', 3, 'g')), ('get_fu', ('get_fu', 'I', 5))])
+EMPTY_TAGS, EMPTY_TAGS_QUICK = gen_observed_loaded(3, 'tags', (1,), (), [('none', None), ('other_side', ('items', 'T', 1, 'groups')),
+                                                   ('prefetch', ('prefetch', 'G', 'tags')), ('cload', ('cload', 'G', 3, 'tags'))])
+FULL_ITEMS_NONE, _ = gen_observed_loaded(1, 'items', (1, 2, 3), (1, 2), [('none', None)])          # thorough tier only
+FULL_TAGS_NONE, _ = gen_observed_loaded(1, 'tags', (1, 2), (1,), [('none', None)])                 # thorough tier only
+OBSERVED_LOADED = EMPTY_ITEMS + EMPTY_TAGS + FULL_ITEMS_NONE + FULL_TAGS_NONE
+OBSERVED_LOADED_QUICK = EMPTY_ITEMS_QUICK + EMPTY_TAGS_QUICK
+def ol_writers(name):
+    g3 = name.startswith('E:G3')
+    if '.tags:' in name: return ['tag_add_G3'] if g3 else ['tag_add', 'tag_remove']
+    return ['new_I5_G3', 'move_I3_G3'] if g3 else ['move_I1', 'unlink_I1', 'del_I1', 'move_I3_in', 'new_I4']
+
+# ---- family 'one2one' (names 'O:...', second world): a one-to-one attribute whose OWN side holds a column
+# (symmetric S.spouse; M.wife / F.husband with column= on both sides). The reader observes x.attr (None or an
+# object), a writer commits a re-link (through either side; one writer stores one side only with raw SQL, the way a
+# foreign program would), the reader then fetches ANOTHER row y of the partner entity by every route (y may have been
+# loaded before the first observation: 'pre') and observes x.attr again.
+def gen_one2one(ent, attr, pent, rattr, xs, ys):
+    out = []
+    for x in xs:
+        routes = [('q_all', ('q_all', pent)), ('q_gt', ('q_gt', pent))]
+        for y in ys:
+            if pent == ent and y == x: continue
+            routes += [('get%d' % y, ('attr', pent, y, 'name')), ('q_one%d' % y, ('q_one', pent, y)), ('get_fu%d' % y, ('get_fu', pent, y)),
+                       ('nav%d' % y, ('attr', pent, y, rattr))]
+        for rn, rop in routes:
+            out.append(P('O:%s%d.%s|%s' % (ent, x, attr, rn), ('attr', ent, x, attr), rop, ('attr', ent, x, attr)))
+        for y in ys:
+            if pent == ent and y == x: continue
+            for rn, rop in (('q_all', ('q_all', pent)), ('q_one%d' % y, ('q_one', pent, y)), ('load%d' % y, ('load', pent, y))):
+                out.append(P('O:%s%d.%s|pre%d+%s' % (ent, x, attr, y, rn), ('attr', pent, y, 'name'), ('attr', ent, x, attr), rop, ('attr', ent, x, attr)))
+    return out
+ONE2ONE = gen_one2one('S', 'spouse', 'S', 'spouse', (1, 3), (2, 4)) + gen_one2one('M', 'wife', 'F', 'husband', (1, 2), (1, 2)) \
+          + gen_one2one('F', 'husband', 'M', 'wife', (1, 2), (1, 2))
+ONE2ONE_WRITERS = [
+    P('marry_S2_S3', ('rel', 'S', 2, 'spouse', 'S', 3)),
+    P('marry_S2_S1', ('rel', 'S', 2, 'spouse', 'S', 1)),            # S4 becomes single
+    P('divorce_S1', ('rel', 'S', 1, 'spouse', None, None)),
+    P('marry_M2_F2', ('rel', 'M', 2, 'wife', 'F', 2)),
+    P('marry_F2_M2', ('rel', 'F', 2, 'husband', 'M', 2)),           # the same link made from the other side
+    P('marry_M2_F1', ('rel', 'M', 2, 'wife', 'F', 1)),              # M1 loses his wife
+    P('marry_F2_M1', ('rel', 'F', 2, 'husband', 'M', 1)),           # F1 loses her husband
+    P('divorce_M1', ('rel', 'M', 1, 'wife', None, None)),
+    P('raw_F2_husband_M2', ('raw', 'F', 'update "F" set husband = 2 where id = 2')),   # one side only
+    P('raw_M2_wife_F2', ('raw', 'M', 'update "M" set wife = 2 where id = 2')),
+]
+def o_writers(name):
+    return [w['name'] for w in ONE2ONE_WRITERS if ('_S' in w['name']) == name.startswith('O:S')]
+
 BASE_READERS = list(READERS)
-READERS = BASE_READERS + LOADED_FIRST + WRITE_BETWEEN
-PROGRAMS = READERS + WRITERS
+READERS = BASE_READERS + LOADED_FIRST + WRITE_BETWEEN + OBSERVED_LOADED + ONE2ONE
+PROGRAMS = READERS + WRITERS + ONE2ONE_WRITERS
 BY_NAME = {p['name']: p for p in PROGRAMS}
 assert len(BY_NAME) == len(PROGRAMS)
-assert set(LOADED_FIRST_QUICK + WRITE_BETWEEN_QUICK) <= set(BY_NAME)
+assert set(LOADED_FIRST_QUICK + WRITE_BETWEEN_QUICK + OBSERVED_LOADED_QUICK) <= set(BY_NAME)
 CONTROL_READERS = ('vol|load', 'vol|q_all', 'vitems|cload', 'vitems|q_all')
 VOLATILE_WRITERS = ('upd_vol', 'move_V1', 'move_V2_in')
 TRIPLE_READERS = ['val|load', 'g|q_one', 'items|cload', 'items|q_all', 'tags|other_side', 'vol|load']
@@ -216,7 +337,7 @@ def interpret(t, prog, orm, E, note):
             _, ename, o, attr = op
             obj = get(ename, o)
             val = getattr(obj, attr)
-            if attr in ('g', 'item', 'detail'): val = pk(val)
+            if isinstance(val, orm.core.Entity): val = pk(val)
             note('obs', '%s[%s].%s' % (ename, o, attr), val)
         elif k == 'load':
             obj = get(op[1], op[2])
@@ -264,6 +385,10 @@ def interpret(t, prog, orm, E, note):
             get(op[1], op[2]).delete()
         elif k == 'link':
             setattr(get(op[1], op[2]), op[3], None if op[4] is None else E['G'][op[4]])
+        elif k == 'rel':
+            setattr(get(op[1], op[2]), op[3], None if op[4] is None else E[op[4]][op[5]])
+        elif k == 'raw':
+            E[op[1]]._database_.execute(op[2])
         elif k == 'link1':
             E['D'][op[1]].item = None if op[2] is None else E['I'][op[2]]
         elif k == 'new':
@@ -320,7 +445,7 @@ def op_shape(op):
     k = op[0]
     if len(op) == 1: return k
     if k in ('attr', 'items', 'len', 'count', 'empty', 'in', 'cload', 'copy', 'bool', 'eq'): return '%s:%s' % (k, op[3])
-    if k in ('set', 'link'): return '%s:%s.%s' % (k, op[1], op[3])
+    if k in ('set', 'link', 'rel'): return '%s:%s.%s' % (k, op[1], op[3])
     if k == 'prefetch': return 'prefetch:%s' % op[2]
     if k == 'load': return 'load' + (':' + op[3] if len(op) > 3 else '')
     return '%s:%s' % (k, op[1])
@@ -354,6 +479,8 @@ def judge(v, counters):
         elif r['status'] == 'engine': out.append(('engine-result|%s' % r['cls'], repr(r)))
         if r['status'] == 'exc' and r['cls'] == 'UnrepeatableReadError':
             bump('UnrepeatableReadError')
+            if name.startswith('O:'): bump('UnrepeatableReadError_one2one_reader')
+            if name.startswith('E:G3'): bump('UnrepeatableReadError_reader_of_collection_observed_empty')
             if any(d[0] == 'committed' for _, d in v.notes[t]): bump('UnrepeatableReadError_after_in_session_commit')
             if any(d[0] == 'loaded' for _, d in v.notes[t]) or v.progs[t]['ops'][0][0] in ('len', 'bool'): bump('UnrepeatableReadError_collection_loaded_first')
             others = [j for j in v.change_steps if v.x.trace[j][0] != t]
@@ -375,6 +502,7 @@ def judge(v, counters):
             if how == 'attr':
                 if key in first:
                     bump('volatile_reobserved' if vol else 'attributes_reobserved')
+                    if name.startswith('O:'): bump('one2one_attributes_reobserved')
                     if first[key] != val:
                         if vol: bump('volatile_changed_silently')
                         else: out.append(('value-changed-silently|%s|via=%s' % (key.split('.')[-1], route(v, t, step, at[key], idx)),
@@ -411,6 +539,7 @@ def judge(v, counters):
             if was_loaded: derived.setdefault((key, how), (val, idx))
             if expect is NOEXP: continue         # computed by the database before any full load: a different read
             bump('volatile_reobserved' if vol else 'collections_reobserved')
+            if expect in (0, True) and how in ('len', 'count', 'empty') and not vol: bump('empty_collection_size_reobserved')
             if val != expect:
                 if vol: bump('volatile_changed_silently')
                 else:
@@ -431,7 +560,7 @@ def judge(v, counters):
     return out
 
 def work_items(ctx):
-    rn = [p['name'] for p in BASE_READERS]; wn = [p['name'] for p in WRITERS]
+    rn = [p['name'] for p in BASE_READERS]; wn = [p['name'] for p in WRITERS if p['name'] not in G3_WRITERS]
     pairs = [(a, b) for a in rn for b in wn]
     items = []
     def coll_of(name): return 'tags' if 'tags' in name else 'vitems' if 'vitems' in name else 'items'
@@ -440,6 +569,8 @@ def work_items(ctx):
         # the writer fits between two observations with ONE preemption
         items += [('loaded-first', (a, b), 1, 'visible') for a in LOADED_FIRST_QUICK for b in LOADED_FIRST_WRITERS_QUICK[coll_of(a)]]
         items += [('write-between', (a, b), 1, 'visible') for a in WRITE_BETWEEN_QUICK for b in wb_writers(a, True)]
+        items += [('observed-loaded', (a, b), 1, 'visible') for a in OBSERVED_LOADED_QUICK for b in ol_writers(a)]
+        items += [('one2one', (p_['name'], b), 1, 'visible') for p_ in ONE2ONE for b in o_writers(p_['name'])]
         items += [('xcheck', pr, 1, 'all') for pr in XCHECK[:2]]
     else:
         items += [('pair', pr, None, 'visible') for pr in pairs]
@@ -449,6 +580,9 @@ def work_items(ctx):
                   for p_ in LOADED_FIRST for b in LOADED_FIRST_WRITERS[coll_of(p_['name'])]]
         items += [('write-between', (p_['name'], b), None if (p_['name'] in wq and b in wb_writers(p_['name'], True)) else 2, 'visible')
                   for p_ in WRITE_BETWEEN for b in wb_writers(p_['name'], False)]
+        oq = set(OBSERVED_LOADED_QUICK)
+        items += [('observed-loaded', (p_['name'], b), None if p_['name'] in oq else 2, 'visible') for p_ in OBSERVED_LOADED for b in ol_writers(p_['name'])]
+        items += [('one2one', (p_['name'], b), None, 'visible') for p_ in ONE2ONE for b in o_writers(p_['name'])]
         items += [('triple', (a,) + ws, 2, 'visible') for a in TRIPLE_READERS for ws in itertools.combinations(TRIPLE_WRITERS, 2)]
         items += [('xcheck', pr, 2, 'all') for pr in XCHECK]
     return items
@@ -456,8 +590,9 @@ def work_items(ctx):
 def worker(arg):
     item, seed = arg
     sub = core.Sub()
-    st = L.explore_item(item, seed, sub, 'C21', [BY_NAME[n] for n in item[1]], judge,
-                        world_factory=make_world, body_factory=body_of, view_factory=View)
+    progs = [BY_NAME[n] for n in item[1]]
+    st = L.explore_item(item, seed, sub, 'C21', progs, judge,
+                        world_factory=world_factory_for(progs), body_factory=body_of, view_factory=View)
     return dict(item=item, sub=sub.dump(), stats=st)
 
 def run(ctx):
@@ -476,6 +611,12 @@ def run(ctx):
         ('program pairs with more than one distinct outcome', agg['per_kind']['pair']['tuples_with_more_than_one_outcome'], 50),
         ('loaded-first reader x writer pairs with more than one distinct outcome', agg['per_kind']['loaded-first']['tuples_with_more_than_one_outcome'], 60),
         ('write-between reader x writer pairs with more than one distinct outcome', agg['per_kind']['write-between']['tuples_with_more_than_one_outcome'], 40),
+        ('observed-loaded reader x writer pairs with more than one distinct outcome', agg['per_kind']['observed-loaded']['tuples_with_more_than_one_outcome'], 60),
+        ('one-to-one reader x writer pairs with more than one distinct outcome', agg['per_kind']['one2one']['tuples_with_more_than_one_outcome'], 60),
+        ('UnrepeatableReadError of a reader of a one-to-one attribute with its own column', c.get('UnrepeatableReadError_one2one_reader', 0), 100),
+        ('UnrepeatableReadError of a reader that observed a fully loaded collection EMPTY', c.get('UnrepeatableReadError_reader_of_collection_observed_empty', 0), 50),
+        ('one-to-one attributes (own column) re-observed', c.get('one2one_attributes_reobserved', 0), 500),
+        ('size questions re-put to a fully loaded EMPTY collection', c.get('empty_collection_size_reobserved', 0), 200),
         ('UnrepeatableReadError after an in-session commit of the reader', c.get('UnrepeatableReadError_after_in_session_commit', 0), 50),
         ('UnrepeatableReadError of a reader that fully loaded the collection before observing it', c.get('UnrepeatableReadError_collection_loaded_first', 0), 50),
         ('all-points cross-check tuples', c.get('xcheck_tuples_all_points_outcomes_contained', 0), 2),])
@@ -483,11 +624,16 @@ def run(ctx):
     ctx.cov.update(readers=len(READERS), writers=len(WRITERS), base_readers=len(BASE_READERS),
                    loaded_first_readers=len(LOADED_FIRST_QUICK if ctx.quick else LOADED_FIRST),
                    write_between_readers=len(WRITE_BETWEEN_QUICK if ctx.quick else WRITE_BETWEEN),
+                   observed_loaded_readers=len(OBSERVED_LOADED_QUICK if ctx.quick else OBSERVED_LOADED),
+                   one2one_readers=len(ONE2ONE), one2one_writers=len(ONE2ONE_WRITERS),
                    bounds=('reader x writer: preemption bound 2; loaded-first (%d of %d readers) and write-between (%d of %d readers) '
-                           'x their relevant writers: preemption bound 1' % (len(LOADED_FIRST_QUICK), len(LOADED_FIRST), len(WRITE_BETWEEN_QUICK), len(WRITE_BETWEEN)))
+                           'x their relevant writers: preemption bound 1; observed-loaded (%d of %d readers) and one2one (all %d readers) x their '
+                           'relevant writers: preemption bound 1' % (len(LOADED_FIRST_QUICK), len(LOADED_FIRST), len(WRITE_BETWEEN_QUICK), len(WRITE_BETWEEN),
+                                                                     len(OBSERVED_LOADED_QUICK), len(OBSERVED_LOADED), len(ONE2ONE)))
                           if ctx.quick else
                           'reader x writer: all interleavings; loaded-first / write-between families x their relevant writers: every '
-                          'generated reader at preemption bound 2, the quick selection under all interleavings; '
+                          'generated reader at preemption bound 2, the quick selection under all interleavings (same for observed-loaded); '
+                          'one2one readers x their writers: all interleavings; '
                           'reader + 2 writers (%d x C(%d,2)): preemption bound 2' % (len(TRIPLE_READERS), len(TRIPLE_WRITERS)))
     ctx.cov['exhaustive'] = True
     ctx.assume('SQLite only (PostgreSQL/MySQL server behaviour is out of reach); the reader observes through the public API only')
@@ -496,7 +642,7 @@ def run(ctx):
 def replay(ctx, case):
     progs = case['programs']
     for p in progs: p['ops'] = [tuple(op) for op in p['ops']]
-    world = make_world()
+    world = world_factory_for(progs)()
     try:
         ex = tx.Explorer(world, [body_of(p) for p in progs], points=case.get('points', 'visible'))
         x = ex.run(tuple(case['choices']))
